@@ -21,7 +21,7 @@ import (
 func c01Script(c *vf.Case, w *sim.World, lostKeyPrefix string) {
 	r := c.Rng
 	nobj := r.Range(2, 6)
-	kinds := []sim.Kind{sim.KConnDialed, sim.KConnAccepted, sim.KAdapter, sim.KFifoR, sim.KFifoW, sim.KUDP, sim.KListener, sim.KRegFile}
+	kinds := []sim.Kind{sim.KConnDialed, sim.KConnAccepted, sim.KAdapter, sim.KFifoR, sim.KFifoW, sim.KUDP, sim.KListener, sim.KRegFile, sim.KConnUDP}
 	for i := 0; i < nobj; i++ {
 		k := kinds[r.Intn(len(kinds))]
 		small := r.Bool() && k != sim.KAdapter
@@ -115,7 +115,7 @@ func c01Script(c *vf.Case, w *sim.World, lostKeyPrefix string) {
 		case k == 9:
 			c.Logf("  peer of %s closes / hangs up", o)
 			w.PeerClose(o)
-		case k == 10 && o.Kind != sim.KFifoR && o.Kind != sim.KFifoW && o.Kind != sim.KUDP:
+		case k == 10 && o.Kind != sim.KFifoR && o.Kind != sim.KFifoW && o.Kind != sim.KUDP && o.Kind != sim.KConnUDP:
 			c.Logf("  peer of %s resets", o)
 			w.PeerReset(o)
 		default:
@@ -225,6 +225,16 @@ func c01Script(c *vf.Case, w *sim.World, lostKeyPrefix string) {
 			case sim.KFifoR, sim.KFifoW:
 				if o.Rd != nil || o.Wr != nil {
 					w.PeerClose(o)
+				}
+			case sim.KConnUDP:
+				if o.Rd != nil {
+					if o.Peer >= 0 {
+						w.PeerWrite(o, max(8, len(o.Rd.Buf))) // one datagram fills what a read-all still waits for
+					} else {
+						// the peer's port is closed: a datagram sent now comes back as ICMP port-unreachable, which
+						// leaves ECONNREFUSED pending on the socket (EPOLLERR with nothing to read) and completes the read
+						_, _ = o.FD.Write([]byte{1})
+					}
 				}
 			default:
 				// an RST completes pending reads and writes at once; a FIN would leave a write that sits behind a
